@@ -8,7 +8,7 @@
 
 use simcore::driver::{case_text, Replay};
 use simcore::emit::{builder_module, layout_module, main_rs, shard_cargo_toml, workspace_cargo_toml, ShardMember};
-use simcore::layout::{gen_bad_enum_probes, gen_default_probes, gen_layout, gen_mismatch_probes, gen_narrow_probes, gen_probes, is_native, storage_bits, GenOpts, Layout};
+use simcore::layout::{gen_bad_enum_probes, gen_default_probes, gen_layout, gen_mismatch_probes, gen_narrow_probes, gen_probes, gen_syntax_probes, is_native, storage_bits, GenOpts, Layout};
 use simcore::prng::{mix, Rng, TAG_LAYOUT, TAG_PROBE};
 use simcore::shrink::{reduce_layout, referenced_fields};
 use std::fs;
@@ -55,6 +55,8 @@ pub const BADENUM_ID_BASE: u32 = 4_000_000;
 const TAG_BADENUM: u64 = 0x4241_4445;
 pub const NARROW_ID_BASE: u32 = 5_000_000;
 const TAG_NARROW: u64 = 0x4e41_5252;
+pub const SYNTAX_ID_BASE: u32 = 6_000_000;
+const TAG_SYNTAX: u64 = 0x5359_4e54;
 
 fn probes_for(prop: &str, seed: u64, which: &str) -> Vec<Layout> {
     let mut out = Vec::new();
@@ -90,6 +92,9 @@ fn probes_for(prop: &str, seed: u64, which: &str) -> Vec<Layout> {
             // class F: fields whose type is narrower than the bits they select
             let mut rng = Rng::new(mix(&[seed, TAG_NARROW, n as u64]));
             out.extend(gen_narrow_probes(&mut rng, n, NARROW_ID_BASE + n * 100));
+            // class G: rule-following declarations in a syntax the macro rejects today
+            let mut rng = Rng::new(mix(&[seed, TAG_SYNTAX, n as u64]));
+            out.extend(gen_syntax_probes(&mut rng, n, SYNTAX_ID_BASE + n * 100));
         }
     }
     out
